@@ -126,7 +126,7 @@ fn build_rec_uncached(seed: u64, seq: u64, shape: &str, pad: usize) -> Option<En
         b.seq(seq);
         if shape.contains('s') {
             // one /24 shared by all such records (IP-diversity limits)
-            b.ip4(Ipv4Addr::new(10, 250, 250, (seed % 250 + 1) as u8));
+            b.ip4(Ipv4Addr::new(10, 250, 250, if seed % 7 == 0 { 255 } else if seed % 11 == 0 { 0 } else { (seed % 250 + 1) as u8 }));
             b.udp4(9000 + (seed % 500) as u16);
         } else if shape.contains('u') {
             // an address no datagram is delivered to (unspecified / a multicast group): as admissible
